@@ -156,6 +156,30 @@ T3 = {
  'C20-r3-2': ('rpc/server', 'TestDemo2Follower', 'every receive error from a follower is marked retriable', 'a follower stream dying mid-result with a redundant handler registered', 'strengthened', 'C20.j'),
 }
 
+# round 4 (one per property): /tmp/seedout4
+T4 = {
+ 'C01-r4-1': ('.', 'TestDemo1CoalescedFullQuerySeesAllRows', 'combinedOnValue returns the last visited iteration\'s more flag instead of accumulating true', 'two coalesced queries, one stopping early and visited last in map order', 'strengthened', 'C01.j (= C17.h; C17.e reports the same change under C17)'),
+ 'C02-r4-1': ('.', 'TestDemo1AcknowledgedInsertsSurviveKillAfterFlush', 'backfillTo treats an unset Backfill as backfill nothing: persisted offsets are replaced by now on restart', 'default TableOpts.Backfill, a flush, unflushed inserts, a kill', 'strengthened', 'C02.n'),
+ 'C03-r4-1': ('.', 'TestDemoQueryStableWhileFlushing', 'rowStore.iterate copies the memstore and picks up rs.fileStore in two separate critical sections', 'a flush completing between the two sections of a memstore-inclusive query', 'initial', 'C03.e'),
+ 'C04-r4-1': ('.', 'TestDemoC04QueryOnShiftedFieldIsReadOnly', 'SHIFT() folds a nested shift by rewriting the shared inner shift node', 'a query applying SHIFT to a table field that is itself a SHIFT', 'strengthened', 'C04.e (generalised to all functions of package expr)'),
+ 'C05-r4-1': ('expr', 'TestDemoIfSubMergeEqualsDirect', 'ifExpr.SubMergers adds the wrapped operand\'s sub-mergers even when the IF itself matched a source field', 'a table storing both X and IF(cond, X)', 'strengthened', 'C05.i'),
+ 'C06-r4-1': ('.', 'TestDemoC06ConditionalFieldRegroup', 'ifExpr.SubMergers adds the wrapped operand\'s sub-mergers even when the IF itself matched a source field', 'a table storing both X and IF(cond, X), re-grouped', 'strengthened', 'C06.j (= C05.i)'),
+ 'C07-r4-1': ('planner', 'TestDemoWindowedValuesMatchUnbounded', 'ifExpr.Shift returns 0 instead of the wrapped expression\'s shift', 'IF(cond, SHIFT(x, -n)) with ASOF/UNTIL', 'strengthened', 'C07.h'),
+ 'C08-r4-1': ('.', 'TestDemoC08LargeIntegerDimFilter', 'numeric literals of predicates are parsed with ParseFloat and converted back to int', 'integer dimension values above 2^53', 'strengthened', 'C08.j'),
+ 'C09-r4-1': ('planner', 'TestDemo1LimitOffsetSliceOrderedResult', 'applyLimit uses sqlparser Limit.Limits(), which parses with base 0', 'a zero-padded LIMIT/OFFSET literal such as 010', 'strengthened', 'C09.h'),
+ 'C10-r4-1': ('.', 'TestDemoC10SharedPartitionKeys', 'followLeaders copies the existing tables of a partition-key group into a zero-length slice', 'two tables on one stream with the same partition keys, the later with the stricter WHERE', 'strengthened', 'C10.l'),
+ 'C11-r4-1': ('planner', 'TestC11Demo1ClusterEqualsLocalWithTwoInSubQueries', 'planSubQueries ships only non-empty IN-subquery result sets', 'two IN-subqueries, one empty cluster-wide, at least two partitions', 'strengthened', 'C11.k'),
+ 'C12-r4-1': ('.', 'TestDemoC12FollowerGetsEveryPointOnce', 'enqueuePartitionRequests no longer waits for a batch to drain before feeding the next', 'a burst of more than NumCPU-1 entries with one slow to map, >= 3 CPUs', 'strengthened', 'C12.n'),
+ 'C13-r4-1': ('.', 'TestDemoC13PartitionFailureDoesNotTruncateHealthyPartitions', 'queryCluster calls stop() when a partition fails non-retriably', 'one partition failing while another still streams', 'strengthened', 'C13.j'),
+ 'C14-r4-1': ('.', 'TestDemoC14ExpiredDataNotReturnedAtCoarserResolution', 'group.GetAsOf moves asOf back to a whole multiple of the query resolution', 'a GROUP BY period that does not divide the retention window and expired rows still on disk', 'strengthened', 'C14.g'),
+ 'C15-r4-1': ('.', 'TestDemo1RejectedPointsStayRejectedAfterWhereChangeAndRestart', 'processInserts records the offset of only every 64th rejected entry', 'fewer than 64 trailing rejected points, a widened WHERE, a restart', 'strengthened', 'C15.i (C02.h reports it under C02)'),
+ 'C16-r4-1': ('planner', 'TestDemoC16CrosshiftSigns', 'CROSSHIFT makes the interval positive only when the cutoff is negative', 'CROSSHIFT(x, positive cutoff, negative interval)', 'strengthened', 'C16.k'),
+ 'C17-r4-1': ('.', 'TestDemoC17CoalescedLimit', 'combinedOnValue returns the last visited iteration\'s more flag', 'a coalesced LIMIT query visited last in map order', 'initial', 'C17.e'),
+ 'C18-r4-1': ('.', 'TestDemoC18QueryDuringFlush$', 'Sequence.Merge merges in place when the newer operand already spans the older one', 'a memstore-inclusive query starting while a flush is between two file rows', 'strengthened', 'C18.d (= purity, reported under C05/C06/C07/C17 at once)'),
+ 'C19-r4-1': ('web', 'TestDemoSessionFromLoginExpires', 'oauthCode stores the cookie lifetime (365 days) as the session expiry', 'login, removal from the organisation, replay of the cookie after sessionTimeout', 'strengthened', 'C19.e'),
+ 'C20-r4-1': ('rpc/server', 'TestDemoLargeRowFromFollower', 'PrepareServer caps inbound messages at 1 MiB', 'a clustered non-pushdown query with an unflat row between 1 and 4 MiB', 'strengthened', 'C20.k'),
+}
+
 # confirmed to break the property, but they also fail the baseline's stable TestServers subtests when the
 # server package is run alone in a private network namespace on an idle machine: not kept
 DROPPED = {'C04-1', 'C10-r2-2'}
@@ -166,12 +190,13 @@ def main():
     allT = dict(T)
     allT.update(T2)
     allT.update(T3)
+    allT.update(T4)
     for key, (ddir, pat, what, needs, status, rule) in sorted(allT.items()):
         if key in DROPPED:
             continue
         parts = key.split('-')
         prop, k = parts[0], parts[-1]
-        src = os.path.join('/tmp/seedout3' if 'r3' in parts else ('/tmp/seedout2' if 'r2' in parts else SRC), prop)
+        src = os.path.join('/tmp/seedout4' if 'r4' in parts else '/tmp/seedout3' if 'r3' in parts else ('/tmp/seedout2' if 'r2' in parts else SRC), prop)
         cj = os.path.join(src, 'confirm%s.json' % k)
         if not os.path.exists(cj):
             print('skip (no confirmation yet):', key)
